@@ -256,7 +256,7 @@ func FuncNameIs(f *ssa.Function, name string) bool {
 		return false
 	}
 	f = Origin(f)
-	s := f.String()
+	s := CanonString(f)
 	return s == name || s == ModulePath+"/"+name || strings.ReplaceAll(s, ModulePath+"/", "") == name
 }
 
